@@ -231,11 +231,11 @@ func CreateCertificate(template, parent *Certificate, publicKey *sm2.PublicKey, 
 
 	c.Raw = tbsCertContents
 
+	// An SM2 signer hashes (with ZA) itself and the verifier checks the raw TBS bytes; every other
+	// signer receives the digest. Decide by the signer's key, not by the requested algorithm:
+	// the algorithm may be left to default.
 	digest := tbsCertContents
-	switch template.SignatureAlgorithm {
-	case SM2WithSM3, SM2WithSHA1, SM2WithSHA256:
-		break
-	default:
+	if _, isSM2 := signer.Public().(*sm2.PublicKey); !isSM2 {
 		h := hashFunc.New()
 		h.Write(tbsCertContents)
 		digest = h.Sum(nil)
